@@ -261,7 +261,7 @@ func c06Run(c *core.Ctx) {
 			}
 		}
 		// valid corpus programs: silent => complete, callback independence
-		for _, it := range f.Items(5) {
+		for _, it := range f.Items(6) {
 			if !it.ScanOK || !c.Next() {
 				continue
 			}
